@@ -17,7 +17,11 @@ LINE_BREAKS = "\n\r\v\f\x1c\x1d\x1e\x85  "
 # them in because "verbatim" must mean verbatim.
 UNICODE_ODDITIES = ["e\u0301", "\u212b", "\u2126", "\u1100\u1161", "\ufb01", "\uff21\uff42", "\u200d",
                     "\u00ad", "\u0130", "\u00df", "\u01c5", "\U0001d11e", "\U0001f3b8", "\u0303x",
-                    "\u1e9e", "\u03a9\u0301"]
+                    "\u1e9e", "\u03a9\u0301",
+                    # text that LOOKS like a damaged or escaped encoding (candidates for a "helpful" repair):
+                    # UTF-8 read as cp1252, percent / quoted-printable / entity / backslash escapes
+                    "\u00c3\u00a9tude", "\u00c2\u00a92020", "don\u00e2\u20ac\u2122t", "\u00c3\u00bcber", "\u00c3\u00b1",
+                    "%C3%A9", "=C3=A9", "&#233;", "\\u00e9", "\\xe9", "\u00e9"]
 
 # Strings that mean something to OTHER layers (markup, format strings, escapes, regex, numbers): a payload
 # is carried verbatim, whatever it looks like.
@@ -26,7 +30,9 @@ WRAPPED = ["[idle]", "[section Intro]", "[lyric Oh]", "[]", "[x]", "(x)", "{x}",
            "(section a)", "{lyric b}", " x ", "\tx\t", "[x", "x]"]
 MARKUP_ODDITIES = ["<i>", "</i>", "<color=#ff0000>", "<", ">", "<>", "1 < 2 > 1", "&amp;", "&lt;", "%s", "%d%%", "{0}",
                    "{}", "\\n", "\\t", "\\", "$1", "(.*)", "[a-z]+", "^$", "\\d", "../", "a/b", "C:\\x", "NULL", "None",
-                   "true", "0x1F", "1e5", "+5", "-0", "#", ";", "//", "'", "`", "|", "*", "?", "!", "~", "@"]
+                   "true", "0x1F", "1e5", "+5", "-0", "#", ";", "//", "'", "`", "|", "*", "?", "!", "~", "@",
+                   "/*", "*/", "--", "${x}", "%(x)s", "<!--", "-->", "\\r", "\\x41", "a//b", "http://x", "#x", ";x", "x;",
+                   "x#", "\\\\", "x\\"]
 
 # ------------------------------------------------------------------------------------------------
 # tempo maps
@@ -146,11 +152,25 @@ def interesting_ticks(tm: TempoModel, max_tick: int) -> list[int]:
     return sorted(out)
 
 
+def grid_ticks(tm: TempoModel, max_tick: int) -> list[int]:
+    """Ticks on the musical grid: whole beats, whole 4/4 (and 3/4, 6/8) measures, simple fractions of a
+    beat, also counted from each of the first tempo changes (positions with a meaning to editors)."""
+    r = tm.res
+    out = set()
+    for base in [0] + tm.ticks[1:4]:
+        for k in (1, 2, 3, 4, 8, 16, 64):
+            for unit in (r, 4 * r, 3 * r, r // 2, r // 3, r // 4, 6 * r // 2):
+                t = base + k * unit
+                if 0 <= t <= max_tick:
+                    out.add(t)
+    return sorted(out) or [0]
+
+
 def tick_strategy(tm: TempoModel, max_tick: int):
     cands = interesting_ticks(tm, max_tick)
     near = min(max_tick, tm.ticks[-1] + 8 * tm.res)
     return st.one_of(st.sampled_from(cands), st.sampled_from(cands), st.integers(0, near),
-                     st.integers(0, max_tick))
+                     st.integers(0, max_tick), st.sampled_from(grid_ticks(tm, max_tick)))
 
 
 # ------------------------------------------------------------------------------------------------
@@ -185,17 +205,33 @@ def render_note_items(tick: int, mask: int, lens, tap, forced, lane_order=None) 
 
 @st.composite
 def note_list(draw, tick_st, max_notes: int, max_len_for, allow_forced_first: bool = False,
-              min_notes: int = 0):
+              min_notes: int = 0, landmarks=(), res: int = 0):
     """List of notes {tick, mask, lens, tap, forced} with strictly increasing ticks.
-    ``max_len_for(tick)`` bounds sustains so that end ticks stay inside the time domain."""
+    ``max_len_for(tick)`` bounds sustains so that end ticks stay inside the time domain.
+    ``landmarks``: ticks that mean something elsewhere in the chart (tempo changes, ...); sustains are
+    also drawn to end exactly on / next to the next note, the note after it and the landmarks, and to
+    be simple fractions / multiples of the resolution."""
     ticks = sorted(draw(st.sets(tick_st, min_size=min_notes, max_size=max_notes)))
     notes = []
     for j, t in enumerate(ticks):
         mask = draw(lane_subsets)
         mx = max(0, max_len_for(t))
         nxt = ticks[j + 1] - t if j + 1 < len(ticks) else 50
+        related = {nxt - 1, nxt, nxt + 1}
+        if j + 2 < len(ticks):
+            related |= {ticks[j + 2] - t, ticks[j + 2] - t - 1}
+        if j:
+            related.add(t - ticks[j - 1])
+        for a in landmarks:
+            if a > t:
+                related |= {a - t - 1, a - t, a - t + 1}
+                if len(related) > 16:
+                    break
+        if res:
+            related |= {res, res // 2, res // 3, res // 4, 2 * res, 4 * res, res - 1, res + 1}
+        related = sorted(x for x in related if 0 < x <= mx) or [0]
         len_st = st.one_of(st.just(0), st.just(0), st.integers(0, min(mx, max(1, nxt))),
-                           st.integers(0, min(mx, 5000)), st.integers(0, mx))
+                           st.integers(0, min(mx, 5000)), st.integers(0, mx), st.sampled_from(related))
         style = draw(st.integers(0, 3))
         if mask == 0:
             lens = draw(len_st)
@@ -219,11 +255,36 @@ word_alphabet = st.characters(
     min_codepoint=33, max_codepoint=0x2FF,
     blacklist_characters=LINE_BREAKS + " \t\xa0\x1f",
     blacklist_categories=("Cc", "Cs", "Zs", "Zl", "Zp"))
-words = st.one_of(st.sampled_from(["solo", "soloend", "ENABLE_CHART_DYNAMICS", "x", "a=b", '"q"']),
+words = st.one_of(st.sampled_from(["solo", "soloend", "ENABLE_CHART_DYNAMICS", "x", "a=b", '"q"', "*", "T", "O", "H", "N", "S", "5",
+                                   "end", "forced", "tap"]),
+                  st.sampled_from(["solo", "soloend", "ENABLE_CHART_DYNAMICS", "ENHANCED_OPENS", "[ENHANCED_OPENS]", "*", "T",
+                                   "O", "H", "P", "N", "S", "E", "5", "6", "7", "end", "forced", "tap", "open", "idle",
+                                   "play", "ow_face_on", "ow_face_off", "mix_3_drums0d", "map", "HandMap_Default", "sp",
+                                   "starpower", "ghl", "disco"]),
                   st.text(alphabet=word_alphabet, min_size=1, max_size=12),
                   st.lists(st.sampled_from(UNICODE_ODDITIES + ["a", "Z", "_"]), min_size=1, max_size=3).map("".join),
                   st.lists(st.sampled_from([m for m in MARKUP_ODDITIES if " " not in m] + ["a", "x"]), min_size=1,
                            max_size=3).map("".join))
+
+
+# tick offsets around the widths of machine integers and of the float mantissa: nothing in the format
+# bounds a tick, so a section's meaning must survive being moved up by any of them
+BIG_OFFSETS_32 = [2 ** 31 - 40, 2 ** 32 - 40, 2 ** 32, 2 ** 33 + 7]
+BIG_OFFSETS_64 = [2 ** 53 - 40, 2 ** 63 - 40, 2 ** 64 - 40, 2 ** 64, 10 ** 20]
+
+
+def lift_items(draw, items, res: int, one_in: int = 8, allow64: bool = True):
+    """With probability 1/one_in: (items moved up by a big offset, single fastest tempo, resolution big
+    enough for every time to stay inside the timedelta range); else None."""
+    if draw(st.integers(0, one_in - 1)) != 0:
+        return None
+    offs = list(BIG_OFFSETS_32)
+    if allow64:
+        offs += BIG_OFFSETS_64
+    off = draw(st.sampled_from(offs))
+    if off > 2 ** 34 and res < 960:
+        res = 960
+    return [[it[0] + off] + list(it[1:]) for it in items], [[0, 10 ** 9]], res
 
 
 def merge_track_items(notes, phrases, tevents, sp_first: bool = False) -> list[list]:
@@ -245,7 +306,8 @@ def merge_track_items(notes, phrases, tevents, sp_first: bool = False) -> list[l
 def track_specs(draw, tm: TempoModel, max_tick: int, max_notes: int = 20, max_phrases: int = 4,
                 max_tevents: int = 3, min_notes: int = 0):
     tick_st = tick_strategy(tm, max_tick)
-    notes = draw(note_list(tick_st, max_notes, lambda t: max_tick - t, min_notes=min_notes))
+    notes = draw(note_list(tick_st, max_notes, lambda t: max_tick - t, min_notes=min_notes,
+                           landmarks=tm.ticks[1:6], res=tm.res))
     praw = draw(st.lists(st.tuples(tick_st, st.integers(0, 10)), max_size=max_phrases))
     phrases = []
     for t, style in sorted(praw):
@@ -275,9 +337,23 @@ plain_text = st.text(alphabet=st.characters(min_codepoint=32, max_codepoint=0x2F
                                             blacklist_categories=("Cc", "Cs", "Zl", "Zp")),
                      min_size=0, max_size=16)
 
+# event names with a meaning to Clone Hero / Moonscraper / FeedBack / Rock Band conversions (candidates for
+# special treatment by a "feature"); to this library each is an opaque text
+KNOWN_GLOBAL_EVENTS = ["end", "music_start", "music_end", "coda", "idle", "play", "half_tempo", "normal_tempo",
+                       "crowd_noclap", "crowd_clap", "crowd_intense", "crowd_normal", "crowd_mellow", "crowd_realtime",
+                       "crowd_lighters_off", "crowd_lighters_slow", "crowd_lighters_fast", "band_jump",
+                       "sync_head_bang", "sync_wag", "lighting (chase)", "lighting (strobe)", "lighting ()", "verse",
+                       "chorus", "solo", "soloend", "preview", "Default", "ENABLE_CHART_DYNAMICS", "section end",
+                       "section prc_intro", "section [prc_verse_1]", "lyric +", "lyric #", "lyric ^", "lyric -",
+                       "lyric to-", "lyric =geth=", "lyric er$", "lyric §", "phrase_start", "phrase_end"]
+KNOWN_TRACK_WORDS = ["solo", "soloend", "ENABLE_CHART_DYNAMICS", "ENHANCED_OPENS", "[ENHANCED_OPENS]", "*", "T", "O", "H",
+                     "P", "N", "S", "E", "5", "6", "7", "end", "forced", "tap", "open", "idle", "play", "ow_face_on",
+                     "ow_face_off", "mix_3_drums0d", "map", "HandMap_Default", "sp", "starpower", "ghl", "disco"]
+
 global_texts = st.one_of(
     st.sampled_from(["phrase_start", "phrase_end", "section Intro", "lyric Lo-", "section Solo 1",
                      "lyric rem", "music_start", "end"]),
+    st.sampled_from(KNOWN_GLOBAL_EVENTS),
     plain_text,
     plain_text.map(lambda s: "lyric " + s),
     plain_text.map(lambda s: "section " + s),
@@ -299,6 +375,12 @@ SONG_EXTRAS = [
     ("Artist", '"Artist"'), ("Charter", '"someone"'), ("Album", '"Album"'), ("Year", '", 2018"'),
     ("Genre", st.sampled_from(['"rock"', '"metal"'])), ("MediaType", '"cd"'),
     ("MusicStream", '"song.ogg"'), ("GuitarStream", '"guitar.ogg"'), ("DrumStream", '"drums.ogg"'),
+    # fields other tools write or read (song.ini spellings included); the format documentation of this
+    # library knows none of them: they are carried by the file and mean nothing
+    ("HopoFrequency", st.sampled_from(["170", "0", "1"])), ("hopo_frequency", "170"), ("EighthNoteHopo", "1"),
+    ("FiveLaneDrums", "1"), ("SustainCutoffThreshold", st.sampled_from(["64", "1000"])), ("MultiplierNote", "116"),
+    ("EndEvents", "1"), ("Delay", st.sampled_from(["500", "-500"])), ("StarPowerNote", "103"),
+    ("ProDrums", "True"), ("Modchart", '"yes"'), ("Offset2", "3"),
 ]
 
 # ------------------------------------------------------------------------------------------------
